@@ -610,3 +610,185 @@ Theorem alloc_unbounded_before_fix_preamble :
     (Err ECorrupt, [ABuf 64; ABuf 16; ABuf 7; ABuf 4294967295]) /\
   read_file_bytes fixed_policy witness_forged_preamble = (Err ECorrupt, [ABuf 64; ABuf 16; ABuf 7]).
 Proof. repeat split; vm_compute; reflexivity. Qed.
+
+(* ---- accepted blocks are checked ----------------------------------------------------------------------------- *)
+
+Record cblock := { cb_hdr : list N; cb_comp : list N; cb_entries : list entry }.
+
+(* what "a block of the file checks out" means, independent of the reader loop *)
+Definition block_checked (b : cblock) : Prop :=
+  lenN (cb_hdr b) = 16 /\
+  exists h unc,
+    bhdr_deserialize (cb_hdr b) = Ok h /\
+    lenN (cb_comp b) = bh_csize h /\                         (* payload completely present *)
+    crc32 (cb_comp b) = bh_crc h /\                          (* CRC-32 over the compressed bytes matches *)
+    snappy_decode (cb_comp b) = SnOk unc /\                  (* decompression succeeds ... *)
+    lenN unc = bh_usize h /\                                 (* ... with the declared length *)
+    parse_entries (N.to_nat (bh_count h)) unc 0 = Ok (cb_entries b).   (* EntryCount entries parse *)
+
+Definition cb_bytes (b : cblock) : list N := cb_hdr b ++ cb_comp b.
+
+(* a tail that cannot hold a complete block *)
+Definition incomplete_tail (tail : list N) : Prop :=
+  lenN tail < 16 \/
+  exists h, bhdr_deserialize (firstn 16 tail) = Ok h /\ lenN tail - 16 < bh_csize h.
+
+Lemma parse_block_ok pol h comp es :
+  fst (parse_block pol h comp) = Ok es ->
+  crc32 comp = bh_crc h /\ exists unc, snappy_decode comp = SnOk unc /\ lenN unc = bh_usize h /\
+  parse_entries (N.to_nat (bh_count h)) unc 0 = Ok es.
+Proof.
+  unfold parse_block.
+  destruct (negb (crc32 comp =? bh_crc h)) eqn:C; [discriminate|].
+  apply negb_false_iff, N.eqb_eq in C.
+  destruct (sn_decoded_len comp) as [[dl body]|]; [|discriminate].
+  destruct (p_sn_bound pol && _); [discriminate|].
+  destruct (snappy_decode comp) as [unc| | |]; cbn [sn_to_res fst]; try discriminate.
+  destruct (negb (lenN unc =? bh_usize h)) eqn:C3; [discriminate|].
+  apply negb_false_iff, N.eqb_eq in C3.
+  destruct (parse_entries (N.to_nat (bh_count h)) unc 0) eqn:P; cbn [fst]; try discriminate.
+  intros E; inversion E; subst. split; [assumption|]. exists unc. auto.
+Qed.
+
+Lemma skipn_skipn' {A} x y : forall l : list A, skipn x (skipn y l) = skipn (x + y) l.
+Proof.
+  induction y as [|y IH]; intros l.
+  - rewrite skipn_O. f_equal. lia.
+  - destruct l as [|a l]; [rewrite !skipn_nil; reflexivity|].
+    replace (x + S y)%nat with (S (x + y)) by lia. rewrite !skipn_cons. apply IH.
+Qed.
+
+Lemma split3 (rest : list N) (c : nat) :
+  rest = firstn 16 rest ++ firstn c (skipn 16 rest) ++ skipn (c + 16) rest.
+Proof.
+  rewrite <- skipn_skipn'. rewrite firstn_skipn. rewrite firstn_skipn. reflexivity.
+Qed.
+
+Lemma next_block_ne_block pol rest es rest' :
+  fst (next_block_ne pol rest) = StBlock es rest' ->
+  exists b, block_checked b /\ cb_entries b = es /\ rest = cb_bytes b ++ rest'.
+Proof.
+  unfold next_block_ne. cbv zeta.
+  destruct (lenN rest <? block_header_size) eqn:L.
+  { intros E. exfalso. eapply tail_class_not_block, E. }
+  apply N.ltb_ge in L. unfold block_header_size in *.
+  destruct (slice_ok rest 0 16) as (hb & -> & Lh & Eh); try lia. cbn [bind].
+  destruct (bhdr_deserialize_ok hb) as (h & E2); [unfold block_header_size; lia|]. rewrite E2.
+  destruct (lenN rest - 16 <? bh_csize h) eqn:S.
+  { destruct (p_bound_first pol); cbn [andb fst]; intros E; exfalso; eapply tail_class_not_block, E. }
+  rewrite andb_false_r. apply N.ltb_ge in S.
+  destruct (slice_ok rest 16 (16 + bh_csize h)) as (comp & -> & Lc & Ec); try lia.
+  pose proof (parse_block_ok pol h comp) as P.
+  destruct (parse_block pol h comp) as [r plog]. cbn [fst] in *.
+  destruct r; cbn [fst]; try discriminate.
+  intros E; inversion E; subst a rest'. clear E.
+  destruct (P es eq_refl) as (P1 & unc & P2 & P3 & P4).
+  exists {| cb_hdr := hb; cb_comp := comp; cb_entries := es |}.
+  split; [|split; [reflexivity|]].
+  - split; [exact Lh|]. exists h, unc. cbn [cb_hdr cb_comp cb_entries].
+    repeat split; try assumption. lia.
+  - unfold cb_bytes. cbn [cb_hdr cb_comp]. rewrite <- app_assoc.
+    rewrite Eh, Ec.
+    change (N.to_nat 0) with 0%nat. rewrite skipn_O.
+    change (N.to_nat (16 - 0)) with 16%nat. change (N.to_nat 16) with 16%nat.
+    replace (N.to_nat (16 + bh_csize h - 16)) with (N.to_nat (bh_csize h)) by lia.
+    replace (N.to_nat (16 + bh_csize h)) with (N.to_nat (bh_csize h) + 16)%nat by lia.
+    apply split3.
+Qed.
+
+Lemma next_block_ne_eof pol rest : fst (next_block_ne pol rest) = StEOF -> incomplete_tail rest.
+Proof.
+  unfold next_block_ne. cbv zeta.
+  destruct (lenN rest <? block_header_size) eqn:L.
+  { intros _. left. apply N.ltb_lt in L. exact L. }
+  apply N.ltb_ge in L. unfold block_header_size in *.
+  destruct (slice_ok rest 0 16) as (hb & -> & Lh & Eh); try lia. cbn [bind].
+  destruct (bhdr_deserialize_ok hb) as (h & E2); [unfold block_header_size; lia|]. rewrite E2.
+  destruct (lenN rest - 16 <? bh_csize h) eqn:S.
+  { intros _. right. exists h. apply N.ltb_lt in S. split; [|exact S].
+    rewrite <- E2, Eh. change (N.to_nat 0) with 0%nat. rewrite skipn_O. reflexivity. }
+  rewrite andb_false_r. apply N.ltb_ge in S.
+  destruct (slice_ok rest 16 (16 + bh_csize h)) as (comp & -> & Lc & Ec); try lia.
+  destruct (parse_block pol h comp) as [r plog]. destruct r; cbn [fst]; discriminate.
+Qed.
+
+Theorem read_blocks_checked pol fuel : forall rest es,
+  fst (read_blocks pol fuel rest) = Ok es ->
+  exists blocks tail,
+    rest = concat (map cb_bytes blocks) ++ tail /\
+    Forall block_checked blocks /\
+    es = concat (map cb_entries blocks) /\
+    incomplete_tail tail.
+Proof.
+  induction fuel as [|f IH]; intros rest es; cbn [read_blocks]; [discriminate|].
+  destruct (next_block pol rest) as [st log] eqn:NB.
+  assert (fst (next_block pol rest) = st) as NB' by (rewrite NB; reflexivity). clear NB.
+  destruct st; cbn [fst]; try discriminate.
+  - intros E; inversion E; subst. exists [], rest.
+    split; [reflexivity|]. split; [constructor|]. split; [reflexivity|].
+    unfold next_block in NB'. destruct rest; [left; unfold lenN; simpl; lia|].
+    apply (next_block_ne_eof pol), NB'.
+  - specialize (IH rest').
+    destruct (read_blocks pol f rest') as [r log']. cbn [fst] in *.
+    destruct r; cbn [bind]; try discriminate.
+    intros E; inversion E; subst. clear E.
+    destruct (IH a eq_refl) as (blocks & tail & R1 & R2 & R3 & R4).
+    unfold next_block in NB'. destruct rest as [|r0 rest0]; [discriminate|].
+    destruct (next_block_ne_block pol _ _ _ NB') as (b & B1 & B2 & B3).
+    exists (b :: blocks), tail. repeat split.
+    + rewrite B3. cbn [map concat]. rewrite <- app_assoc. f_equal. exact R1.
+    + constructor; assumption.
+    + cbn [map concat]. rewrite B2, R3. reflexivity.
+    + exact R4.
+Qed.
+
+(* C04_accepted_blocks_are_checked: whenever NewFileReader+LoadIndex returns an index for a
+   byte string, the header stage accepted it, the block area is a sequence of blocks each of
+   which checks out (complete payload, matching CRC-32, successful decompression to the declared
+   length, EntryCount parsable entries) followed only by a tail too short to hold a block, and the
+   index is exactly the last-writer-wins fold of those blocks' entries. *)
+Theorem read_file_checked pol b idx name :
+  fst (read_file_bytes pol b) = Ok (idx, name) ->
+  exists op blocks tail,
+    fst (new_file_reader b) = Ok op /\
+    skipN (data_start_offset (o_hdr op)) b = concat (map cb_bytes blocks) ++ tail /\
+    Forall block_checked blocks /\
+    incomplete_tail tail /\
+    (idx, name) = apply_entries (o_name op) (concat (map cb_entries blocks)).
+Proof.
+  unfold read_file_bytes, read_file_fuel.
+  destruct (new_file_reader b) as [o log0]. destruct o as [op| | |]; cbn [fst]; try discriminate.
+  pose proof (read_blocks_checked pol (blocks_fuel b) (skipN (data_start_offset (o_hdr op)) b)) as R.
+  destruct (read_blocks pol (blocks_fuel b) (skipN (data_start_offset (o_hdr op)) b)) as [r log1].
+  cbn [fst] in R. destruct r; cbn [fst]; try discriminate.
+  intros E; inversion E as [E']. clear E.
+  destruct (R a eq_refl) as (blocks & tail & R1 & R2 & R3 & R4).
+  exists op, blocks, tail. subst a. rewrite E'. repeat split; assumption.
+Qed.
+
+(* ---- the hypotheses of the theorems are satisfiable: a file written by the real FileWriter
+   (3 entries in one block whose Snappy stream contains a copy element) ------------------------------- *)
+
+Definition example_file : list N :=
+  [72;89;68;82;3;0;0;0;31;142;88;197;127;128;215;24;31;142;88;197;127;128;215;24;0;64;0;0;3;0;0;0;0;0;0;0;1;0;0;0;
+   0;0;0;0;0;0;0;0;0;0;0;0;0;0;0;0;0;0;0;0;0;0;0;0;36;0;0;0;58;0;0;0;3;0;205;73;85;136;0;0;58;80;3;2;0;107;107;0;0;0;
+   0;1;1;0;107;32;0;0;0;97;98;99;100;110;4;0;32;1;1;0;97;1;0;0;0;118].
+
+Example example_file_loads :
+  is_bytes example_file /\
+  fst (read_file_bytes fixed_policy example_file) =
+    Ok ([([97], [118]);
+         ([107], [97;98;99;100;97;98;99;100;97;98;99;100;97;98;99;100;97;98;99;100;97;98;99;100;97;98;99;100;97;98;99;100])],
+        []) /\
+  snd (read_file_bytes fixed_policy example_file) =
+    [ABuf 64; ABuf 16; ABuf 36; ABuf 58; AEntries 3; ABuf 2; ABuf 0; ABuf 1; ABuf 32; ABuf 1; ABuf 1; ABuf 16; ABuf 32; ABuf 1] /\
+  scan_block_headers example_file = Ok (1, 3, 58).
+Proof.
+  split; [unfold is_bytes, example_file; repeat constructor|].
+  repeat split; vm_compute; reflexivity.
+Qed.
+
+(* one flipped payload bit of that file is reported, not decoded *)
+Example example_file_bitflip_detected :
+  fst (read_file_bytes fixed_policy (firstn 100 example_file ++ [99] ++ skipn 101 example_file)) = Err ECorrupt.
+Proof. vm_compute. reflexivity. Qed.
